@@ -1195,7 +1195,9 @@ class Sim:
     def bytes_to_move(self):
         n = 0
         for c in self.calls:
-            if c.done is None and c.blocked != 'send':      # (an event rejected by the receive firewall still travels)
+            # everything that may still be on its way (an event rejected by the receive firewall travels too, and `done` proves nothing
+            # when results can be mixed up): counted until the handler is known to have run and the sender to have been resumed
+            if c.blocked != 'send' and (c.done is None or not c.runs):
                 n += c.size + c.rsize
         if self.hp is not None:
             n += len(self.hp.out) + sum(len(J(c.args)) for c in self.hcalls if not c.runs)
